@@ -249,7 +249,14 @@ fn run_two_mocks(case: &Case, rng: &mut Rng) -> Option<(Vec<Obs>, Option<Obs>, u
 pub fn run_meta_case(seed: u64, worker: u64, index: u64) -> (Case, Option<Discrepancy>, Stats) {
     let mut stats = Stats::default();
     let mut rng = Rng::new(mix3(seed, worker, index));
-    let prof = Profile::for_property("C18");
+    let mut prof = Profile::for_property("C18");
+    // one case in ten has many clauses (usually more than 20 terminal clauses over 4-5 methods): whatever the
+    // assembler does to group them per method, each method's own pattern order is what the user wrote
+    if rng.chance(1, 10) {
+        prof.n_methods = (4, 5);
+        prof.pats_per_method = (4, 7);
+        stats.bump("meta_many_clauses");
+    }
     let cfg = crate::build_cfg();
     let base = gen_case(&mut rng, &prof, cfg);
     let base_trace = run_case(&base);
